@@ -53,6 +53,14 @@ func execBlock(eb *syntax.ExecBlock) (bool, string) {
 	return true, ""
 }
 
+// bodyBlock: the block of a branch or loop (‹语句块› ::= ‹普通语句› […]*: at least one statement)
+func bodyBlock(b *syntax.StmtBlock) (bool, string) {
+	if b != nil && len(b.Children) == 0 {
+		return false, "empty block"
+	}
+	return block(b)
+}
+
 func block(b *syntax.StmtBlock) (bool, string) {
 	if b == nil {
 		return false, "nil block"
@@ -101,7 +109,7 @@ func stmt(s syntax.Statement) (bool, string) {
 		if ok, why := expr(v.IfTrueExpr); !ok {
 			return false, "branch condition: " + why
 		}
-		if ok, why := block(v.IfTrueBlock); !ok {
+		if ok, why := bodyBlock(v.IfTrueBlock); !ok {
 			return false, "branch block: " + why
 		}
 		if len(v.OtherExprs) != len(v.OtherBlocks) {
@@ -111,12 +119,12 @@ func stmt(s syntax.Statement) (bool, string) {
 			if ok, why := expr(v.OtherExprs[k]); !ok {
 				return false, "else-if condition: " + why
 			}
-			if ok, why := block(v.OtherBlocks[k]); !ok {
+			if ok, why := bodyBlock(v.OtherBlocks[k]); !ok {
 				return false, "else-if block: " + why
 			}
 		}
 		if v.HasElse {
-			if ok, why := block(v.IfFalseBlock); !ok {
+			if ok, why := bodyBlock(v.IfFalseBlock); !ok {
 				return false, "else block: " + why
 			}
 		}
@@ -127,7 +135,7 @@ func stmt(s syntax.Statement) (bool, string) {
 		if ok, why := expr(v.TrueExpr); !ok {
 			return false, "loop condition: " + why
 		}
-		if ok, why := block(v.LoopBlock); !ok {
+		if ok, why := bodyBlock(v.LoopBlock); !ok {
 			return false, "loop block: " + why
 		}
 	case *syntax.IterateStmt:
@@ -142,7 +150,7 @@ func stmt(s syntax.Statement) (bool, string) {
 				return false, "nil loop name"
 			}
 		}
-		if ok, why := block(v.IterateBlock); !ok {
+		if ok, why := bodyBlock(v.IterateBlock); !ok {
 			return false, "iterate block: " + why
 		}
 	case *syntax.FunctionDeclareStmt:
